@@ -27,11 +27,24 @@ import (
 // clock access, and crash points for fault enumeration. Nothing here changes
 // behaviour unless a crash point is armed through the environment.
 
-var verifCounters sync.Map // "<db ptr>/<table>/<name>" -> *int64
+// The hook state is keyed by the *DB pointer itself (not by its printed address): holding the pointer keeps the
+// object alive, so that a later database cannot get the address, and with it the counters, of an earlier one
+// (thousands of databases are opened and closed in one process by the thorough sweeps); verifClosed drops it.
+type verifCounterKey struct {
+	db    *DB
+	table string
+	name  string
+}
+
+type verifTableKey struct {
+	db    *DB
+	table string
+}
+
+var verifCounters sync.Map // verifCounterKey -> *int64
 
 func verifCounterFor(db *DB, table string, name string) *int64 {
-	key := fmt.Sprintf("%p/%s/%s", db, table, name)
-	c, _ := verifCounters.LoadOrStore(key, new(int64))
+	c, _ := verifCounters.LoadOrStore(verifCounterKey{db, table, name}, new(int64))
 	return c.(*int64)
 }
 
@@ -86,14 +99,30 @@ func verifPoint(name string) {
 	}
 }
 
-var verifReadOffsets sync.Map // "<db ptr>/<table>" -> wal.Offset of the last entry read by the table
+var verifReadOffsets sync.Map // verifTableKey -> wal.Offset of the last entry read by the table
+
+// verifClosed forgets the hook state of a database that has been closed.
+func verifClosed(db *DB) {
+	verifCounters.Range(func(k, _ interface{}) bool {
+		if k.(verifCounterKey).db == db {
+			verifCounters.Delete(k)
+		}
+		return true
+	})
+	verifReadOffsets.Range(func(k, _ interface{}) bool {
+		if k.(verifTableKey).db == db {
+			verifReadOffsets.Delete(k)
+		}
+		return true
+	})
+}
 
 func verifReadInit(t *table, offset wal.Offset) {
-	verifReadOffsets.Store(fmt.Sprintf("%p/%s", t.db, t.Name), append(wal.Offset(nil), offset...))
+	verifReadOffsets.Store(verifTableKey{t.db, t.Name}, append(wal.Offset(nil), offset...))
 }
 
 func verifRead(t *table, offset wal.Offset) {
-	verifReadOffsets.Store(fmt.Sprintf("%p/%s", t.db, t.Name), append(wal.Offset(nil), offset...))
+	verifReadOffsets.Store(verifTableKey{t.db, t.Name}, append(wal.Offset(nil), offset...))
 	verifCount("read", t)
 }
 
@@ -116,7 +145,7 @@ func (db *DB) VerifQuiescent(table string) bool {
 	if err != nil {
 		return false
 	}
-	last, ok := verifReadOffsets.Load(fmt.Sprintf("%p/%s", db, table))
+	last, ok := verifReadOffsets.Load(verifTableKey{db, table})
 	if !ok {
 		return false
 	}
